@@ -936,6 +936,9 @@ def _search(p, s):
 def line(case, impl):
     l = {"suite": "schema", "cls": impl.get("cls_actual", case["cls"]), "re": case.get("re", []),
          "search": impl.get("search", [])}
+    km = key_map(case)
+    if km is not None:
+        l["km"] = km
     if "schema" in impl:
         l["implSchema"] = impl["schema"]
         l["implDefs"] = impl["defs"]
@@ -1112,6 +1115,18 @@ def ref_sites(fd, prefix=""):
     return out
 
 
+def norm_site(site):
+    """a bounded vocabulary of sites: the container kind that directly holds the class reference, and whether an
+    inline structure lies on the way (`seqOf/inline/direct` -> `inline/direct`, `seqOf/seqOf` -> `seqOf`)"""
+    parts = [p for p in site.split("/") if p]
+    inl = "inline/" if "inline" in parts else ""
+    last = [p for p in parts if p not in ("inline",)]
+    last = last[-1] if last else "direct"
+    if parts and parts[-1] == "direct" and len(parts) >= 2 and parts[-2] != "inline":
+        last = parts[-2]
+    return inl + last
+
+
 def site_on_path(fd, path, prefix=""):
     """the site (see ref_sites) of the class reference a document path runs into; None if it cannot be followed"""
     k = fd.get("k")
@@ -1148,8 +1163,46 @@ def submapper_reaches_ref(fd, sub):
     return False
 
 
-def admit_key(err, cls=None, inst=None, mapper=None, mixin=False, renamed=False):
+def _outer_reaches(cls, mapper, err):
+    """the top-level class's mapper reaches a class reference under the field the error path starts in"""
+    if not (err.get("path") or len(cls["fields"]) == 1):
+        return False
+    for n, fd in cls["fields"]:
+        if (len(cls["fields"]) == 1 or mapped_key(n, mapper) == err["path"][0]) and has_class_ref(fd) and \
+                (mapper.get("style") in ("camel", "upper")
+                 or submapper_renames_ref(fd, (mapper.get("d") or {}).get(n + "._mapper"))):
+            return True
+    return False
+
+
+def submapper_renames_ref(fd, sub):
+    """a `._mapper` entry that really renames a key of a class reference it is handed down to"""
+    if not isinstance(sub, dict):
+        return False
+    for st in structs_of(fd):
+        names = [n for n, _ in st["fields"]]
+        if not st.get("inline") and any(k in names and isinstance(v, str) and v != k for k, v in sub.items()):
+            return True
+        if any(submapper_renames_ref(f, sub.get(n + "._mapper")) for n, f in st["fields"]):
+            return True
+    return False
+
+
+def admit_key(err, cls=None, inst=None, mapper=None, mixin=False, renamed=False, own=None):
     """stable name of the phenomenon behind a validation error of a serialized valid instance"""
+    if own and cls is not None and err.get("in_ref"):
+        # the same phenomenon one level down: a NESTED class has a mapper of its own (converter or `._mapper`
+        # entry) that the serializer hands on to the classes nested in it, whose definitions have their own keys
+        refs = all_class_refs(cls["fields"], {})
+        for name, m in sorted(own.items()):
+            st = refs.get(name)
+            if st is None or not has_class_ref(st["fields"]):
+                continue
+            conv = m.get("style") in ("camel", "upper")
+            entry = any(has_class_ref(fd) and submapper_renames_ref(fd, (m.get("d") or {}).get(n + "._mapper"))
+                        for n, fd in st["fields"])
+            if (conv or entry) and not (mapper and _outer_reaches(cls, mapper, err)):
+                return f"outer-mapper-not-applied-to-definitions:{'converter' if conv else 'entry'}:nested-class"
     if mapper and cls is not None and has_class_ref(cls["fields"]):
         # the outer class's mapper (TO_CAMELCASE / TO_LOWERCASE, or a `<field>._mapper` entry) also renames the keys
         # of nested Structure classes when serializing, while their `$ref` definitions are exported with the nested
@@ -1158,10 +1211,15 @@ def admit_key(err, cls=None, inst=None, mapper=None, mixin=False, renamed=False)
             for n, fd in cls["fields"]:
                 if (len(cls["fields"]) == 1 or mapped_key(n, mapper) == err["path"][0]) and has_class_ref(fd) and \
                         (mapper.get("style") in ("camel", "upper")
-                         or submapper_reaches_ref(fd, (mapper.get("d") or {}).get(n + "._mapper"))):
+                         or submapper_renames_ref(fd, (mapper.get("d") or {}).get(n + "._mapper"))):
                     rest = (err.get("path") or [])[0 if len(cls["fields"]) == 1 and not err.get("path") else 1:]
-                    site = site_on_path(fd, rest) or "+".join(sorted(ref_sites(fd)))
-                    return "outer-mapper-not-applied-to-definitions:" + site
+                    site = site_on_path(fd, rest)
+                    sites = {norm_site(site)} if site else {norm_site(x) for x in ref_sites(fd)}
+                    # how the sub-mapper got there: a case converter (TO_CAMELCASE / TO_LOWERCASE: the base mapper
+                    # creates `<field>._mapper` entries for class references, arrays and sets, not for tuples) or an
+                    # explicit `<field>._mapper` entry (handed down through every collection the serializer iterates)
+                    how = "converter" if mapper.get("style") in ("camel", "upper") else "entry"
+                    return f"outer-mapper-not-applied-to-definitions:{how}:" + "+".join(sorted(sites))
     if err.get("instance") in ("True", "False") and '"boolean"' in json.dumps(err.get("schema")):
         return "raw-boolean-string"
     if mixin and cls is not None and (err.get("path") or len(cls["fields"]) == 1):
@@ -1174,6 +1232,17 @@ def admit_key(err, cls=None, inst=None, mapper=None, mixin=False, renamed=False)
             dict((mapped_key(n, mapper), f) for n, f in cls["fields"]).get(err["path"][0])
         if fd is not None and "nested-field-wrapper" in inexact_features(fd, set()):
             return "nested-field-wrapper"
+    if err.get("validator") == "required" and not err.get("branches") and not err.get("path") and cls is not None \
+            and mapper and mapper.get("style") == "dict":
+        # the schema requires the key of a field that is neither required nor defaulted: `required` was renamed in
+        # place while the fields were walked, and an entry renamed onto a later field's name was renamed again
+        m = re.match(r"'(.*)' is a required property", err["msg"])
+        names = [n for n, _ in cls["fields"]]
+        holders = [n for n in names if m and mapped_key(n, mapper) == m.group(1)]
+        dnames = [n for n, _ in cls.get("defaults", [])]
+        if holders and all(h not in cls["required"] and h not in dnames for h in holders) \
+                and any(mapped_key(n, mapper) in names and mapped_key(n, mapper) != n for n in cls["required"]):
+            return "mapper-required-renamed-in-place"
     if err.get("validator") == "required" and not err.get("branches"):
         m = re.match(r"'(.*)' is a required property", err["msg"])
         wrapper = cls is not None and len(cls["fields"]) == 1 and set(cls["required"]) == {cls["fields"][0][0]} \
@@ -1230,7 +1299,7 @@ def tags(case, impl, model):
     if "unbuildable" in impl or "abstraction_mismatch" in impl:
         return ["impl:skipped"]
     if renaming(case):
-        out.append("stream:key-renaming-mapper(oracle only)")
+        out.append("stream:key-renaming-mapper(" + ("oracle only" if oracle_only(case) else "modelled: top-level dict mapper") + ")")
     if case.get("hier"):
         out.append("stream:inheritance:" + case["hier"]["shape"] + (":nested" if case["cls"]["name"].endswith("Outer") else ""))
     out.append("schema:" + ("raises:" + impl["schema_err"]["err"] if "schema_err" in impl else
@@ -1260,8 +1329,30 @@ def describe(case, impl, model):
 
 
 def renaming(case):
-    """a key-renaming serialization mapper is in play (on the class or on a nested class): oracle-only"""
+    """a key-renaming serialization mapper is in play (on the class or on a nested class)"""
     return bool(case.get("mapper") or case.get("own_mappers"))
+
+
+def key_map(case):
+    """the part of the key-renaming stream that the Lean model covers (Sch.classSchemaM): ONE dict mapper on the
+    top-level class that renames its own keys to strings (no `<field>._mapper` entry, no case converter, no nested
+    class with a mapper of its own), with pairwise different mapped keys.  Returns [[field, key], ...] or None."""
+    m = case.get("mapper")
+    if not m or case.get("own_mappers") or m.get("style") != "dict":
+        return None
+    d = m.get("d") or {}
+    names = [n for n, _ in case["cls"]["fields"]]
+    if any(not isinstance(v, str) or k not in names for k, v in d.items()):
+        return None
+    mapped = [d.get(n, n) for n in names]
+    if len(set(mapped)) != len(mapped):
+        return None          # `properties[mapped_key] = ...` overwrites: outside the model
+    return [[n, d[n]] for n in names if n in d]
+
+
+def oracle_only(case):
+    """renaming cases outside the Lean model: no model correspondence, no Lean predicate is used"""
+    return renaming(case) and key_map(case) is None
 
 
 def enum_classes_used(d, acc):
@@ -1296,7 +1387,7 @@ def has_multifield(d):
 
 
 def correspondence(case, impl, model):
-    if "unbuildable" in impl or renaming(case):
+    if "unbuildable" in impl or oracle_only(case):
         return None
     if "abstraction_mismatch" in impl:
         return "dump(build(decl)) != decl: " + json.dumps(impl["abstraction_mismatch"])[:600]
@@ -1326,7 +1417,8 @@ def correspondence(case, impl, model):
         if "doc" in r and "valid" in r and "validImpl" in m and m["validImpl"] != r["valid"]:
             return f"validator verdicts differ on a serialized instance: Lean jsValid={m['validImpl']}, Draft4Validator={r['valid']} ({r.get('error')}); doc " + json.dumps(r["doc"])[:300]
         # the serializer model (Sem/Serde.lean, C05's) is compared where the C08 theorems rely on it
-        if scope and model.get("inFrag") and not impl.get("collapsed") and "ser_notjson" not in r:
+        if scope and model.get("inFrag") and not impl.get("collapsed") and "ser_notjson" not in r \
+                and m.get("renameSafe", True):
             ms = m.get("ser")
             if ms and not str(ms.get("err", "")).startswith("outside-model"):
                 if ("ok" in ms) != ("doc" in r):
@@ -1354,7 +1446,7 @@ def oracle(case, impl, model):
     if "unbuildable" in impl or "abstraction_mismatch" in impl:
         return fails
     kinds = "+".join(sorted({fd["k"] for _, fd in case["cls"]["fields"]}))[:60]
-    if renaming(case):
+    if oracle_only(case):
         # the Lean predicates describe the mapper-free class: use none of them
         model = {"raises": model.get("raises")}
     if "schema_err" in impl:
@@ -1376,12 +1468,12 @@ def oracle(case, impl, model):
     for r in impl.get("insts", []):
         m = next(mi, {}) if "x" in r else {}
         if r.get("valid") is False and model.get("inFrag") and model.get("refsFaithful") and m.get("inRegion") \
-                and not uses_mixin_enum(case):
+                and m.get("renameSafe", True) and not uses_mixin_enum(case):
             fails.append(("admits:inside-the-proved-region",
                           "schema_admits_partial covers this (class, instance), yet the real schema rejects the real "
                           f"serialization: {r['error']['msg']}; doc " + json.dumps(r["doc"])[:200]))
         if r.get("valid") is False and model.get("refsFaithful") is not False:
-            fails.append((f"admits:{admit_key(r['error'], case['cls'], r.get('x'), case.get('mapper'), uses_mixin_enum(case), renaming(case))}",
+            fails.append((f"admits:{admit_key(r['error'], case['cls'], r.get('x'), case.get('mapper'), uses_mixin_enum(case), renaming(case), case.get('own_mappers'))}",
                           f"serialization of a valid instance is rejected by the schema: {r['error']['msg']} at {'/'.join(r['error']['path'])}; doc " + json.dumps(r["doc"])[:200]))
         if "valid_crash" in r:
             fails.append(("validator-crash", "Draft4Validator raised on the emitted schema: " + r["valid_crash"]))
